@@ -677,6 +677,7 @@ func zzH_C16_abi_exec_engine_request(t *zzT) {
 		Assets:      assets,
 		Header:      header,
 		Transaction: tx,
+		Consensus:   &labi.Consensus{}, // since the repair of the engine's callers (before: absent, and the handler crashed)
 		DryRun:      false,
 	})
 	t.Assert(err == nil && xres != nil, "the engine's ExecuteTransaction request is served")
